@@ -71,19 +71,31 @@ class Check:
             ok = False
             self.notes.append("coq build failed: " + out[-2000:])
         work = COQ
+        self.src_hash = None
         if self.tier == "thorough" and ok and os.environ.get("VERIF_NO_CLEAN") != "1":
             # a from-scratch build of the sources in a private copy (no stale .vo can hide anything,
-            # and concurrent checks are not disturbed); coqchk runs on that copy
-            work = self.scratch + ".coq"
-            shutil.rmtree(work, ignore_errors=True)
-            shutil.copytree(COQ, work, ignore=shutil.ignore_patterns("*.vo", "*.vok", "*.vos", "*.glob", "*.aux", ".*.aux", "Makefile", "Makefile.conf", ".Makefile.d", "*.d"))
-            sh("coq_makefile -f _CoqProject -o Makefile", cwd=work)
-            rc, out = sh("timeout 6000 make -j16", cwd=work, timeout=6100)
-            cmds.append("clean rebuild in a scratch copy: coq_makefile && make -j16")
-            if rc != 0:
-                ok = False
-                self.notes.append("clean coq build failed: " + out[-2000:])
-                work = COQ
+            # and concurrent checks are not disturbed); coqchk runs on that copy.  The verdicts are
+            # remembered per content hash of all .v sources (+ _CoqProject, coqc version), so the same
+            # sources are not rebuilt / re-checked by every property's thorough run.
+            self.src_hash = sources_hash()
+            cache = os.path.join(COQ, ".thorough_cache")
+            os.makedirs(cache, exist_ok=True)
+            mods_key = hashlib.sha1(" ".join(sorted(prop_files)).encode()).hexdigest()[:12]
+            self.cache_file = os.path.join(cache, "%s-%s.json" % (self.src_hash[:24], mods_key))
+            if os.path.exists(self.cache_file) and os.environ.get("VERIF_NO_CACHE") != "1":
+                self.cached = json.load(open(self.cache_file))
+            else:
+                self.cached = None
+                work = self.scratch + ".coq"
+                shutil.rmtree(work, ignore_errors=True)
+                shutil.copytree(COQ, work, ignore=shutil.ignore_patterns("*.vo", "*.vok", "*.vos", "*.glob", "*.aux", ".*.aux", "Makefile", "Makefile.conf", ".Makefile.d", "*.d", ".thorough_cache"))
+                sh("coq_makefile -f _CoqProject -o Makefile", cwd=work)
+                rc, out = sh("timeout 6000 make -j16", cwd=work, timeout=6100)
+                cmds.append("clean rebuild in a scratch copy: coq_makefile && make -j16")
+                if rc != 0:
+                    ok = False
+                    self.notes.append("clean coq build failed: " + out[-2000:])
+                    work = COQ
         self.coq_work = work
         for pre in pre_files:      # generated files outside _CoqProject (C19)
             rc, out = sh("timeout 900 coqc -R . RT %s" % pre, cwd=work, timeout=1000)
@@ -133,12 +145,18 @@ class Check:
         self.coverage["theorems"] = theorems
         if self.tier == "thorough" and ok and os.environ.get("VERIF_NO_COQCHK") != "1":
             mods = " ".join("RT." + pf[:-2].replace("/", ".") for pf in prop_files)
-            rc, out = sh("timeout 5400 coqchk -silent -o -R . RT %s" % mods, cwd=work, timeout=5500)
-            cmds.append("coqchk -silent -o -R . RT %s" % mods)
-            self.coverage["coqchk"] = out[-1500:]
-            if rc != 0:
-                ok = False
-                self.notes.append("coqchk failed: " + out[-1500:])
+            if getattr(self, "cached", None):
+                cmds.append("clean rebuild + coqchk -silent -o -R . RT %s (verdict cached for source hash %s, checked %s)" % (mods, self.src_hash[:16], self.cached.get("when")))
+                self.coverage["coqchk"] = self.cached.get("coqchk", "")
+            else:
+                rc, out = sh("timeout 5400 coqchk -silent -o -R . RT %s" % mods, cwd=work, timeout=5500)
+                cmds.append("coqchk -silent -o -R . RT %s" % mods)
+                self.coverage["coqchk"] = out[-1500:]
+                if rc != 0:
+                    ok = False
+                    self.notes.append("coqchk failed: " + out[-1500:])
+                elif getattr(self, "cache_file", None) and not pre_files:
+                    json.dump({"when": time.strftime("%Y-%m-%dT%H:%M:%S"), "coqchk": out[-1500:]}, open(self.cache_file, "w"))
         self.checker_cmd = " && ".join(cmds)
         if work != COQ and os.environ.get("VERIF_KEEP_COQ_COPY") != "1":
             shutil.rmtree(work, ignore_errors=True)
@@ -388,6 +406,22 @@ class Check:
         print("OK property=%s tier=%s obligations=%d/%d evaluations=%d wall=%.1fs" % (
             self.prop, self.tier, self.discharged, self.obligations, cov.get("evaluations", 0), time.time() - self.t0))
         sys.exit(0)
+
+
+def sources_hash():
+    h = hashlib.sha256()
+    rc, ver = sh("coqc --version")
+    h.update(ver.encode())
+    files = []
+    for dp, dn, fs in os.walk(COQ):
+        dn[:] = [d for d in dn if d != ".thorough_cache"]
+        for f in fs:
+            if f.endswith(".v") or f == "_CoqProject":
+                files.append(os.path.join(dp, f))
+    for f in sorted(files):
+        h.update(os.path.relpath(f, COQ).encode() + b"\0")
+        h.update(open(f, "rb").read())
+    return h.hexdigest()
 
 
 def load_findings():
